@@ -87,6 +87,43 @@ static void stage_bytes(Run &R) {
     R.space("C12 every ASCII byte except DQUOTE/backslash at first/middle/last position of the local part x 18 domain shapes", total);
 }
 
+// local parts of 56..72 octets in the word shapes whose length accounting could differ per mode
+static void stage_lengths(Run &R) {
+    uint64_t idx = 0, total = 0; int dm = K_->default_mask();
+    for (size_t n = 56; n <= 72; n++) {
+        std::vector<Bytes> ls = {Bytes(n, 'a'), "\"" + Bytes(n - 2, 'q') + "\"", "\"" + Bytes(n - 5, 'q') + "\".\"w\"", "a.\"" + Bytes(n - 4, 'q') + "\"", "\"" + Bytes(n - 4, 'q') + "\".b", "\"" + Bytes(n - 4, 'q') + "\\ \""};
+        { Bytes l; while (l.size() < n) l += "ab."; l.resize(n); if (l.back() == '.') l.back() = 'c'; ls.push_back(l); }
+        for (const Bytes &l : ls) for (const char *d : {"ok.com", "[1.2.3.4]", "x", "sub.example.org", "b.zzunlisted"}) { total++; if ((int) (idx++ % R.a.nworkers) != R.a.worker) continue; if (!run_one(R, l + "@" + d, dm)) return; }
+    }
+    R.space("C12 local parts of 56..72 octets in 7 word shapes x 5 domains", total);
+}
+
+// the same relations observed on ONE object that is switched through the modes (every order of two modes, with and
+// without a failed eav_setup in between): the outcome in mode m must be what a dedicated mode-m object gives
+static std::optional<Failure> check_switched(Run &R, const Bytes &a, int m1, int m2, bool failed_between) {
+    Core &K = *K_; Case cs; cs.b("addr", a).i("mask", K.default_mask()).i("m1", m1).i("m2", m2).i("fb", failed_between); g_case = cs.str();
+    Obj o(K.A); if (o.configure(m1, 1) != 0) return Failure{"setup-failed", g_case, ""};
+    v_outcome x1 = o.is_email(a);
+    if (failed_between) { K.A->obj_set_rfc_raw(o.p, 1234); (void) K.A->obj_setup(o.p); }
+    K.A->obj_set_mode(o.p, m2); if (K.A->obj_setup(o.p) != 0) return Failure{"setup-failed", g_case, ""};
+    v_outcome x2 = o.is_email(a); R.eval(2);
+    K.A->obj_set_allow(K.o[m2][1]->p, K.default_mask()); v_outcome w = K.o[m2][1]->is_email(a); R.eval();
+    R.nontrivial(hashs(g_case));
+    if (x2.ret != w.ret || x2.errcode != w.errcode || x2.rc != w.rc || strcmp(x2.errstr, w.errstr) != 0)
+        return Failure{"mode-after-switch", g_case, "object switched from mode " + std::string(ref::MODE_NAME[m1]) + (failed_between ? " (then a failed eav_setup)" : "") + " to mode " + ref::MODE_NAME[m2] + ": '" + show(a) + "' -> " + outcome_str(x2) + " but a dedicated mode-" + ref::MODE_NAME[m2] + " object -> " + outcome_str(w)};
+    (void) x1;
+    return std::nullopt;
+}
+static void stage_switched(Run &R) {
+    std::vector<Bytes> as = {"user@example.com", "\xD0\xB8\xD0\xB2\xD0\xB0\xD0\xBD@\xD0\xBF\xD0\xBE\xD1\x87\xD1\x82\xD0\xB0.\xD1\x80\xD1\x84", "user@xn--a.com", "\"a\tb\"@x.com", "\"a b\"@x.com", "a@\xE2\x99\xA5.de", "\xD0\x96@x.com", "a@b", "a@[1.2.3.4]", "\"a\\\x01\"@x.com", "a#b@x.com"};
+    uint64_t idx = 0, total = 0;
+    for (const Bytes &a : as) for (int m1 = 0; m1 < 4; m1++) for (int m2 = 0; m2 < 4; m2++) for (int fb = 0; fb < 2; fb++) {
+        total++; if ((int) (idx++ % R.a.nworkers) != R.a.worker) continue;
+        auto f = check_switched(R, a, m1, m2, fb != 0); if (f && !R.fail(*f)) return;
+    }
+    R.space("C12 11 mode-discriminating addresses x every ordered pair of modes on one reused object x {no, one} failed eav_setup in between", total);
+}
+
 static void stage_random(Run &R) {
     rc_run(R, "C12 cross-mode relations on generated addresses", 4.0, [&](Src &s) -> std::optional<Failure> {
         int mask = s.chance(1, 2) ? K_->default_mask() : (int) s.pick(2048);
@@ -107,8 +144,8 @@ static void stage_corpus(Run &R) {
 
 #ifndef VF_FUZZ
 int main(int argc, char **argv) {
-    return std_main(argc, argv, "C12", {{"bounded", stage_bounded}, {"bytes", stage_bytes}, {"random", stage_random}, {"corpus", stage_corpus}},
-        [](Run &R, const Case &c) { return check_one(R, c.getb("addr"), (int) c.geti("mask")); }, [] { return g_case; },
+    return std_main(argc, argv, "C12", {{"bounded", stage_bounded}, {"bytes", stage_bytes}, {"random", stage_random}, {"corpus", stage_corpus}, {"lengths", stage_lengths}, {"switched", stage_switched}},
+        [](Run &R, const Case &c) -> std::optional<Failure> { if (c.has("m1")) return check_switched(R, c.getb("addr"), (int) c.geti("m1"), (int) c.geti("m2"), c.geti("fb") != 0); return check_one(R, c.getb("addr"), (int) c.geti("mask")); }, [] { return g_case; },
         [](Run &R) { K_ = new Core(&dflt_api); return K_->init(R.a.datadir); }, [] { delete K_; });
 }
 #else
